@@ -612,6 +612,19 @@ def _build_pure_modules():
     def setitem(a, b, c):
         _bind(_SYN_STORE, c, {'_a0': a, '_a1': b})
     names['setitem'] = setitem
+
+    def inplace(sym):
+        stmt = ast.parse('_a0 %s= _a1' % sym).body
+
+        def call(a, b):
+            env = {'_a0': a, '_a1': b}
+            run_block(stmt, env, None)
+            return env['_a0']
+        return call
+    for nm, sym in (('iadd', '+'), ('isub', '-'), ('imul', '*'), ('itruediv', '/'), ('ifloordiv', '//'), ('imod', '%'), ('ipow', '**'), ('iconcat', '+'),
+                    ('ilshift', '<<'), ('irshift', '>>')):
+        names[nm] = inplace(sym)
+        names['__%s__' % nm] = names[nm]
     for nm in list(names):
         if nm.rstrip('_') == nm and nm in ('lt', 'le', 'gt', 'ge', 'eq', 'ne', 'add', 'sub', 'mul', 'truediv', 'floordiv', 'mod', 'pow', 'neg', 'pos', 'getitem', 'setitem', 'contains', 'abs', 'index'):
             names['__%s__' % nm] = names[nm]
@@ -874,6 +887,8 @@ def ev(n, env, funcs=None):
             return getattr(v, n.attr)       # a bound method of a builtin container taken as a value (map(d.__getitem__, keys))
         if v is None:
             raise AttributeError("'NoneType' object has no attribute %r (%s)" % (n.attr, txt))
+        if isinstance(v, (int, float, complex)) and n.attr in ('real', 'imag'):
+            return getattr(v, n.attr)
         raise Unsupported('attribute %s' % txt)
     if isinstance(n, ast.Subscript):
         base = ev(n.value, env, funcs)
@@ -1555,6 +1570,21 @@ def run_block(stmts, env, funcs=None, limit=10000):
             if t not in _AUG:
                 raise Unsupported('augmented assignment %s' % ast.unparse(s))
             _bind(s.target, _AUG[t](cur, v), env, funcs)
+        elif isinstance(s, ast.AugAssign) and isinstance(s.target, ast.Name) and s.target.id in env.get('__global_decl__', ()) and funcs and '__globals__' in funcs:
+            g_ = funcs['__globals__']
+            if s.target.id not in g_:
+                raise Raised('NameError', s.target.id)
+            cur = g_[s.target.id]
+            v = ev(s.value, env, funcs)
+            t = type(s.op)
+            if isinstance(cur, Obj) or isinstance(v, Obj):
+                g_[s.target.id] = _obj_binop(t, cur, v, s, inplace=True)
+            elif t not in _AUG:
+                raise Unsupported('augmented assignment %s' % ast.unparse(s))
+            elif isinstance(cur, list) and t is ast.Add and isinstance(v, (list, tuple)):
+                cur.extend(v)
+            else:
+                g_[s.target.id] = _AUG[t](cur, v)
         elif isinstance(s, ast.AugAssign) and isinstance(s.target, ast.Name):
             cur = env[s.target.id]
             v = ev(s.value, env, funcs)
@@ -1776,7 +1806,10 @@ _AUG = {ast.RShift: lambda a, b: a >> b, ast.LShift: lambda a, b: a << b, ast.Ad
 
 def _bind(t, v, env, funcs=None):
     if isinstance(t, ast.Name):
-        env[t.id] = v
+        if '__global_decl__' in env and t.id in env['__global_decl__'] and funcs and '__globals__' in funcs:
+            funcs['__globals__'][t.id] = v          # a name declared global, wherever it is bound (tuple targets, loop targets, walrus)
+        else:
+            env[t.id] = v
     elif isinstance(t, ast.Subscript):
         base = ev(t.value, env, funcs)
         if isinstance(base, list):
